@@ -213,6 +213,35 @@ func (c *Ctx) execCall(fr *Frame, st *State, call *ssa.CallCommon, site ssa.Valu
 	}
 	key := fnKey(callee)
 	ct := c.eng.contracts[key]
+	switch key {
+	case "strings.Repeat", "bytes.Repeat":
+		if len(args) == 2 && args[0].S != "" && args[1].S != "" && site != nil {
+			ln := fmt.Sprintf("(str_len %s)", args[0].S)
+			if key == "bytes.Repeat" {
+				ln = fmt.Sprintf("(s_len %s)", args[0].S)
+			}
+			cnt := c.toIdx(args[1].S, args[1].T)
+			var prod string
+			if c.mode == BV {
+				prod = fmt.Sprintf("(bvmul %s %s)", ln, cnt)
+			} else {
+				prod = fmt.Sprintf("(* %s %s)", ln, cnt)
+			}
+			c.allocOblige(fr, st, siteInstr(site), prod, 1, key)
+		}
+	case "strings.ToLower", "strings.ToUpper", "bytes.ToLower", "bytes.ToUpper":
+		if len(args) == 1 && args[0].S != "" && site != nil {
+			ln := fmt.Sprintf("(str_len %s)", args[0].S)
+			if strings.HasPrefix(key, "bytes.") {
+				ln = fmt.Sprintf("(s_len %s)", args[0].S)
+			}
+			c.allocOblige(fr, st, siteInstr(site), ln, 1, key)
+		}
+	case "strings.(*Builder).Grow", "bytes.(*Buffer).Grow":
+		if len(args) == 2 && args[1].S != "" && site != nil {
+			c.allocOblige(fr, st, siteInstr(site), c.toIdx(args[1].S, args[1].T), 1, key)
+		}
+	}
 	// call-site assertions declared by the caller's contract
 	c.callSiteAsserts(fr, st, callee, args, "assert_before_call", pos, siteInstr(site))
 	var res Val
